@@ -31,12 +31,31 @@ type ReusableWorkflowMetadataInput struct {
 	Type ExprType
 }
 
+// metadataBool is a boolean value in metadata of reusable workflow. Like the workflow parser, it
+// accepts a value given by ${{ }} expression. Such a value is not known statically so it is treated
+// as false as (*LocalReusableWorkflowCache).WriteWorkflowCallEvent does.
+type metadataBool bool
+
+// UnmarshalYAML implements yaml.Unmarshaler.
+func (b *metadataBool) UnmarshalYAML(n *yaml.Node) error {
+	if n.Kind == yaml.ScalarNode && n.Tag == "!!str" && isExprAssigned(n.Value) {
+		*b = false
+		return nil
+	}
+	var v bool
+	if err := n.Decode(&v); err != nil {
+		return err
+	}
+	*b = metadataBool(v)
+	return nil
+}
+
 // UnmarshalYAML implements yaml.Unmarshaler.
 func (input *ReusableWorkflowMetadataInput) UnmarshalYAML(n *yaml.Node) error {
 	type metadata struct {
-		Required bool    `yaml:"required"`
-		Default  *string `yaml:"default"`
-		Type     string  `yaml:"type"`
+		Required metadataBool `yaml:"required"`
+		Default  *string      `yaml:"default"`
+		Type     string       `yaml:"type"`
 	}
 
 	var md metadata
@@ -44,7 +63,7 @@ func (input *ReusableWorkflowMetadataInput) UnmarshalYAML(n *yaml.Node) error {
 		return err
 	}
 
-	input.Required = md.Required && md.Default == nil
+	input.Required = bool(md.Required) && md.Default == nil
 	switch md.Type {
 	case "boolean":
 		input.Type = BoolType{}
@@ -112,13 +131,17 @@ func (secrets *ReusableWorkflowMetadataSecrets) UnmarshalYAML(n *yaml.Node) erro
 	for i := 0; i < len(n.Content); i += 2 {
 		k, v := n.Content[i], n.Content[i+1]
 
-		var s ReusableWorkflowMetadataSecret
+		var s struct {
+			Required metadataBool `yaml:"required"`
+		}
 		if err := v.Decode(&s); err != nil {
 			return err
 		}
-		s.Name = k.Value
 
-		md[strings.ToLower(k.Value)] = &s
+		md[strings.ToLower(k.Value)] = &ReusableWorkflowMetadataSecret{
+			Name:     k.Value,
+			Required: bool(s.Required),
+		}
 	}
 
 	*secrets = md
